@@ -18,6 +18,7 @@ struct Case {
     int                  gen2{0};   // 1: copy-appends may take their argument from the array itself (absent in older files: 0)
 };
 static thread_local bool g_gen2 = false;
+static thread_local int  g_gen2_level = 0; // 2: wide text also draws units whose low byte is a whitespace code (U+4E0A, U+2020, U+010D ...)
 
 using jm::Entropy;
 using jm::Units;
@@ -349,7 +350,16 @@ Units gen_text(Entropy &e, unsigned maxlen, bool allow_nul) {
         uint32_t c;
         switch (e.below(8)) {
             case 0: c = (uint32_t[]){' ', '\t', '\n', '\r'}[e.below(4)]; break;
-            case 1: c = allow_nul && e.chance(30) ? 0 : 0x80 + e.below(sizeof(Char_T) == 1 ? 0x80 : 0x7000); break;
+            case 1:
+                c = allow_nul && e.chance(30) ? 0 : 0x80 + e.below(sizeof(Char_T) == 1 ? 0x80 : 0x7000);
+                if (g_gen2_level >= 2 && sizeof(Char_T) > 1 && c >= 0x100 && (c & 3) == 1) {
+                    // not whitespace, although the low byte is one (and, in 4-byte units, above the BMP as well)
+                    c = (c & 0x7F00) | (uint32_t[]){0x20, 0x09, 0x0A, 0x0D}[(c >> 2) & 3];
+                    if (sizeof(Char_T) == 4 && (c & 0x0400) != 0) {
+                        c |= 0x10000;
+                    }
+                }
+                break;
             default: c = 0x21 + e.below(0x5E); break;
         }
         u.push_back(c);
@@ -1176,7 +1186,7 @@ struct H {
     static rc::Gen<Case> gen() {
         using namespace rc;
         return gen::map(gen::tuple(gen::resize(300, gen::container<std::vector<uint8_t>>(gen::arbitrary<uint8_t>())), pbt::pick<int>({0, 0, 1, 1, 2, 2, 3, 3, 3, 4}),
-                                   pbt::pick<int>({1, 1, 2, 4, 3}), pbt::pick<int>({0, 1, 1})),
+                                   pbt::pick<int>({1, 1, 2, 4, 3}), pbt::pick<int>({0, 1, 2, 2})),
                         [](std::tuple<std::vector<uint8_t>, int, int, int> t) {
                             Case c;
                             c.bytes  = std::get<0>(t);
@@ -1193,7 +1203,7 @@ struct H {
         uint8_t          s   = f.sel();
         c.width  = w[s & 3];
         c.target = (s >> 2) % 5;
-        c.gen2   = (s >> 6) & 1;
+        c.gen2   = ((s >> 6) & 1) + ((s >> 6) & (s >> 7) & 1);
         c.bytes  = f.rest();
         return true;
     }
@@ -1235,6 +1245,7 @@ struct H {
     }
     static void run(const Case &c, pbt::Ctx &ctx) {
         g_gen2 = (c.gen2 != 0);
+        g_gen2_level = c.gen2;
         Trace tr;
         ctx.label(c.target == 0 ? "target:Array<int>" : c.target == 1 ? "target:Array<String>" : c.target == 2 ? "target:String" : c.target == 3 ? "target:StringStream" : "target:StringView");
         try {
